@@ -33,10 +33,10 @@ struct _table_arm table_arm[] =
   { "adc",   0x00a00000, 0x0de00000, OP_ALU_3, 3, 2 },
   { "sbc",   0x00c00000, 0x0de00000, OP_ALU_3, 3, 2 },
   { "rsc",   0x00e00000, 0x0de00000, OP_ALU_3, 3, 2 },
-  { "tst",   0x01000000, 0x0de00000, OP_ALU_2_N, 3, 2 },
-  { "teq",   0x01200000, 0x0de00000, OP_ALU_2_N, 3, 2 },
-  { "cmp",   0x01400000, 0x0de00000, OP_ALU_2_N, 3, 2 },
-  { "cmn",   0x01600000, 0x0de00000, OP_ALU_2_N, 3, 2 },
+  { "tst",   0x01100000, 0x0df00000, OP_ALU_2_N, 3, 2 },
+  { "teq",   0x01300000, 0x0df00000, OP_ALU_2_N, 3, 2 },
+  { "cmp",   0x01500000, 0x0df00000, OP_ALU_2_N, 3, 2 },
+  { "cmn",   0x01700000, 0x0df00000, OP_ALU_2_N, 3, 2 },
   { "orr",   0x01800000, 0x0de00000, OP_ALU_3, 3, 2 },
   { "mov",   0x01a00000, 0x0de00000, OP_ALU_2_D, 3, 2 },
   { "bic",   0x01c00000, 0x0de00000, OP_ALU_3, 3, 2 },
